@@ -54,16 +54,91 @@ class Front:
         self.td = tempfile.mkdtemp(prefix='c2lean')
         self.tu = os.path.join(self.td, 'tu.c')
         open(self.tu, 'w').write(TU_HEAD)
+        # on-disk cache of clang's output, keyed by the CONTENT of the current sources: any edit of /repo invalidates it
+        h = hashlib.sha256()
+        for sub in ('src', 'include'):
+            for dp, dn, fn in sorted(os.walk(os.path.join(repo, sub))):
+                dn.sort()
+                for f in sorted(fn):
+                    if f.endswith(('.h', '.c')):
+                        fp = os.path.join(dp, f); h.update(fp[len(repo):].encode()); h.update(open(fp, 'rb').read())
+        h.update(TU_HEAD.encode()); h.update(' '.join(CONFIG_FLAGS[config]).encode())
+        self.srcfp = h.hexdigest()[:24]
+        self.cdir = os.environ.get('C2LEAN_CACHE', os.path.join(os.path.dirname(os.path.dirname(os.path.abspath(__file__))), 'build', 'astcache'))
+        os.makedirs(self.cdir, exist_ok=True)
+        try:    # keep the cache bounded: entries of at most 3 source fingerprints
+            ent = [(os.path.getmtime(os.path.join(self.cdir, f)), f) for f in os.listdir(self.cdir)]
+            fps = {}
+            for t, f in ent: fps[f[:24]] = max(fps.get(f[:24], 0), t)
+            keep = set(sorted(fps, key=lambda k: -fps[k])[:3]) | {self.srcfp}
+            for t, f in ent:
+                if f[:24] not in keep: os.remove(os.path.join(self.cdir, f))
+        except OSError:
+            pass
+
+    def _clang(self, extra, tag):
+        """stdout of clang on the translation unit with the given -Xclang options (cached per source fingerprint)"""
+        cf = os.path.join(self.cdir, '%s_%s_%s' % (self.srcfp, self.config, re.sub(r'[^A-Za-z0-9_]', '_', tag)))
+        if os.path.exists(cf):
+            return 0, open(cf).read(), ''
+        cmd = ['clang-14', '-fsyntax-only', '-w', '-I' + self.repo, '-I' + os.path.join(self.repo, 'src'),
+               '-DECMULT_WINDOW_SIZE=15', '-DCOMB_BLOCKS=43', '-DCOMB_TEETH=6'] + CONFIG_FLAGS[self.config] + extra + [self.tu]
+        r = subprocess.run(cmd, capture_output=True, text=True)
+        if r.returncode == 0:
+            tmp = cf + '.%d.tmp' % os.getpid()
+            open(tmp, 'w').write(r.stdout); os.replace(tmp, cf)
+        return r.returncode, r.stdout, r.stderr
+
+    def layouts(self):
+        """flattened record layouts of the translation unit (clang -fdump-record-layouts): typename -> [(path, n or None)]
+        where n is the array length of the leaf (None for a scalar leaf)"""
+        if hasattr(self, '_layouts'): return self._layouts
+        rc, so, se = self._clang(['-Xclang', '-fdump-record-layouts'], 'layouts')
+        lay = {}
+        for blk in so.split('*** Dumping AST Record Layout')[1:]:
+            rows = []
+            for l in blk.split('\n'):
+                m = re.match(r'\s*\d+ \|(\s+)(.*)$', l)
+                if m: rows.append((len(m.group(1)), m.group(2).strip()))
+            if not rows: continue
+            tname = rows[0][1].replace('struct ', '').replace('union ', '').strip()
+            leaves, stack = [], []
+            for k in range(1, len(rows)):
+                depth, text = rows[k]
+                ty, _, fld = text.rpartition(' ')
+                while stack and stack[-1][0] >= depth: stack.pop()
+                is_rec = k + 1 < len(rows) and rows[k + 1][0] > depth
+                path = '.'.join([x[1] for x in stack] + [fld])
+                if is_rec: stack.append((depth, fld))
+                else:
+                    ma = re.match(r'(.*)\[(\d+)\]$', ty)
+                    leaves.append((path, int(ma.group(2)) if ma else None))
+            lay.setdefault(tname, leaves)
+        self._layouts = lay
+        return lay
+
+    def global_var(self, name):
+        """the VarDecl (with initialiser) of a file-scope constant"""
+        key = 'var:' + name
+        if key in self.cache: return self.cache[key]
+        rc, s, se = self._clang(['-Xclang', '-ast-dump=json', '-Xclang', '-ast-dump-filter=' + name], 'ast_' + name)
+        dec = json.JSONDecoder(); i = 0; found = None
+        while i < len(s):
+            while i < len(s) and s[i] in ' \n\r\t': i += 1
+            if i >= len(s): break
+            d, j = dec.raw_decode(s, i); i = j
+            if d.get('kind') == 'VarDecl' and d.get('name') == name and d.get('init'):
+                found = d
+        if found is None: raise Unsupported('no initialised definition of global ' + name)
+        self.cache[key] = found
+        return found
 
     def function(self, name):
         if name in self.cache: return self.cache[name]
-        cmd = ['clang-14', '-fsyntax-only', '-w', '-I' + self.repo, '-I' + os.path.join(self.repo, 'src'),
-               '-DECMULT_WINDOW_SIZE=15', '-DCOMB_BLOCKS=43', '-DCOMB_TEETH=6'] + CONFIG_FLAGS[self.config] + \
-              ['-Xclang', '-ast-dump=json', '-Xclang', '-ast-dump-filter=' + name, self.tu]
-        r = subprocess.run(cmd, capture_output=True, text=True)
-        if r.returncode != 0:
-            raise Unsupported('clang failed on %s: %s' % (name, r.stderr[-500:]))
-        s = r.stdout; dec = json.JSONDecoder(); i = 0; found = None
+        rc, s, se = self._clang(['-Xclang', '-ast-dump=json', '-Xclang', '-ast-dump-filter=' + name], 'ast_' + name)
+        if rc != 0:
+            raise Unsupported('clang failed on %s: %s' % (name, se[-500:]))
+        dec = json.JSONDecoder(); i = 0; found = None
         while i < len(s):
             while i < len(s) and s[i] in ' \n\r\t': i += 1
             if i >= len(s): break
@@ -109,6 +184,7 @@ class Translator:
         self.unroll = unroll
         self.counter = 0
         self.scalars, self.arrays = [], []
+        self.prologue, self.globals = [], {}
 
     def fresh(self, base):
         self.counter += 1
@@ -122,6 +198,7 @@ class Translator:
         if k == 'DeclRefExpr':
             d = n['referencedDecl']
             if d['id'] in env: return env[d['id']]
+            if d.get('kind') == 'VarDecl': return self.global_const(d['name'])
             raise Unsupported('reference to %s %s (global?)' % (d.get('kind'), d.get('name')))
         if k == 'UnaryOperator' and n['opcode'] == '*':
             p = self.pointer(n['inner'][0], env)
@@ -333,6 +410,8 @@ class Translator:
             return self.stmt_expr(inner, env, out)
         if k == 'BinaryOperator' and n['opcode'] == '=':
             lv = self.lvalue(n['inner'][0], env)
+            if lv[0] == 'struct':
+                self.struct_copy(lv, n['inner'][1], n['inner'][0]['type']['qualType'], env, out); return
             e, t = self.expr(n['inner'][1], env, out)
             self.write(lv, e, out); return
         if k == 'BinaryOperator' and n['opcode'] == ',':
@@ -357,6 +436,76 @@ class Translator:
         if k in ('IntegerLiteral',): return
         if not self.has_effect(n): return
         raise Unsupported('expression statement kind ' + k)
+
+    def global_const(self, name):
+        """a `static const` object of the translation unit: materialised once, in the function's prologue, from its initialiser"""
+        if name in self.globals: return self.globals[name]
+        vd = self.front.global_var(name)
+        qt = vd['type']['qualType']
+        if 'const' not in qt: raise Unsupported('reference to the non-const global ' + name)
+        inits = [c for c in vd.get('inner', []) if 'kind' in c and c['kind'] not in ('FullComment',)]
+        if not inits: raise Unsupported('global without initialiser ' + name)
+        gname = 'g.' + name
+        base = qt.replace('const ', '').replace('volatile ', '').strip()
+        items = []
+        def flat(n):
+            k = n['kind']
+            if k == 'InitListExpr':
+                t = n['type']['qualType']
+                ma = re.match(r'.*\[(\d+)\]$', t)
+                kids = [c for c in n.get('inner', []) if isinstance(c, dict) and 'kind' in c]
+                if ma and not re.match(r'.*\]\[\d+\]$', t) and not t.startswith('secp256k1_'):
+                    items.append(('array', kids, int(ma.group(1))))
+                elif ma: raise Unsupported('array of aggregates in the initialiser of ' + name)
+                else:
+                    for c in kids: flat(c)
+            elif k == 'ImplicitValueInitExpr': items.append(('zero', n['type']['qualType']))
+            else: items.append(('expr', n))
+        flat(inits[0])
+        if '[' in base:
+            if len(items) != 1 or items[0][0] != 'array': raise Unsupported('initialiser shape of ' + name)
+            for i in range(items[0][2]):
+                e = self.expr(items[0][1][i], {}, self.prologue)[0] if i < len(items[0][1]) else lit(0)
+                self.prologue.append(('store', gname, lit(i), fold(e)))
+            r = ('array', gname)
+        elif base.startswith('secp256k1_') and not re.match(r'secp256k1_u?int128', base):
+            lay = self.front.layouts().get(base)
+            if lay is None: raise Unsupported('no record layout for ' + base)
+            if len(lay) != len(items): raise Unsupported('initialiser of %s has %d leaves, layout %d' % (name, len(items), len(lay)))
+            for (path, n), it in zip(lay, items):
+                if n is None:
+                    e = lit(0) if it[0] == 'zero' else self.expr(it[1], {}, self.prologue)[0]
+                    self.prologue.append(('assign', gname + '.' + path, fold(e)))
+                else:
+                    if it[0] == 'zero': kids = []
+                    elif it[0] == 'array': kids = it[1]
+                    else: raise Unsupported('initialiser shape of ' + name)
+                    for i in range(n):
+                        e = self.expr(kids[i], {}, self.prologue)[0] if i < len(kids) else lit(0)
+                        self.prologue.append(('store', gname + '.' + path, lit(i), fold(e)))
+            r = ('struct', gname)
+        else:
+            if len(items) != 1 or items[0][0] != 'expr': raise Unsupported('initialiser shape of ' + name)
+            e, t = self.expr(items[0][1], {}, self.prologue)
+            ce = fold(self.convert(e, t, width_of(base)))
+            r = ('const', ce[1]) if ce[0] == 'lit' else None
+            if r is None: raise Unsupported('non-literal scalar global ' + name)
+        self.globals[name] = r
+        return r
+
+    def struct_copy(self, dst, rhs, qt, env, out):
+        """`dst = rhs` for a struct type: field-wise copy following clang's record layout"""
+        while rhs['kind'] in ('ParenExpr', 'ImplicitCastExpr') and (rhs['kind'] == 'ParenExpr' or rhs.get('castKind') in ('LValueToRValue', 'NoOp')):
+            rhs = rhs['inner'][0]
+        src = self.lvalue(rhs, env)
+        if src[0] != 'struct': raise Unsupported('struct assignment from ' + str(src))
+        tname = qt.replace('const ', '').replace('volatile ', '').strip()
+        lay = self.front.layouts().get(tname)
+        if lay is None: raise Unsupported('no record layout for ' + tname)
+        for path, n in lay:
+            if n is None: out.append(('assign', dst[1] + '.' + path, var(src[1] + '.' + path)))
+            else:
+                for i in range(n): out.append(('store', dst[1] + '.' + path, lit(i), idx(src[1] + '.' + path, lit(i))))
 
     def has_effect(self, n):
         k = n['kind']
@@ -397,7 +546,10 @@ class Translator:
                     continue
                 if qt.startswith('secp256k1_') and not re.match(r'secp256k1_u?int128', qt):
                     env[d['id']] = ('struct', name)
-                    if d.get('inner'): raise Unsupported('struct initialiser')
+                    inits = [c for c in d.get('inner', []) if 'kind' in c and c['kind'] not in ('FullComment',)]
+                    if inits:
+                        if inits[0]['kind'] == 'InitListExpr': raise Unsupported('struct initialiser list')
+                        self.struct_copy(('struct', name), inits[0], qt, env, out)
                     continue
                 if '*' in qt: raise Unsupported('pointer local ' + d['name'])
                 env[d['id']] = ('var', name)
@@ -474,6 +626,7 @@ class Translator:
                 env[p['id']] = ('var', p['name']); scalars.append(p['name'])
         out = []
         self.block(body, env, out, '', top=True)
+        out = self.prologue + out
         out = resolve_returns(out)
         return {'name': name, 'scalars': scalars, 'arrays': arrays, 'body': out}
 
@@ -603,6 +756,34 @@ TARGET_SETS = {
         ('fe_mul_int', 'secp256k1_fe_impl_mul_int_unchecked', 'native', True),
         ('fe_half', 'secp256k1_fe_impl_half', 'native', True),
     ],
+    'field10x26': [
+        ('fe_mul_inner', 'secp256k1_fe_mul_inner', 'int64', True),
+        ('fe_sqr_inner', 'secp256k1_fe_sqr_inner', 'int64', True),
+        ('fe_normalize', 'secp256k1_fe_impl_normalize', 'int64', True),
+        ('fe_normalize_weak', 'secp256k1_fe_impl_normalize_weak', 'int64', True),
+        ('fe_add', 'secp256k1_fe_impl_add', 'int64', True),
+        ('fe_mul_int', 'secp256k1_fe_impl_mul_int_unchecked', 'int64', True),
+        ('fe_half', 'secp256k1_fe_impl_half', 'int64', True),
+        ('fe_negate', 'secp256k1_fe_impl_negate_unchecked', 'int64', True),
+    ],
+    'scalar4x64': [
+        ('scalar_mul_512', 'secp256k1_scalar_mul_512', 'native', True),
+        ('scalar_reduce_512', 'secp256k1_scalar_reduce_512', 'native', True),
+        ('scalar_mul', 'secp256k1_scalar_mul', 'native', True),
+        ('scalar_add', 'secp256k1_scalar_add', 'native', True),
+        ('scalar_negate', 'secp256k1_scalar_negate', 'native', True),
+        ('scalar_half', 'secp256k1_scalar_half', 'native', True),
+        ('scalar_cadd_bit', 'secp256k1_scalar_cadd_bit', 'native', True),
+    ],
+    'scalar8x32': [
+        ('scalar_mul_512', 'secp256k1_scalar_mul_512', 'int64', True),
+        ('scalar_reduce_512', 'secp256k1_scalar_reduce_512', 'int64', True),
+        ('scalar_mul', 'secp256k1_scalar_mul', 'int64', True),
+        ('scalar_add', 'secp256k1_scalar_add', 'int64', True),
+        ('scalar_negate', 'secp256k1_scalar_negate', 'int64', True),
+        ('scalar_half', 'secp256k1_scalar_half', 'int64', True),
+        ('scalar_cadd_bit', 'secp256k1_scalar_cadd_bit', 'int64', True),
+    ],
     'ct': [
         ('fe_cmov', 'secp256k1_fe_impl_cmov', 'native', False),
         ('fe_storage_cmov', 'secp256k1_fe_storage_cmov', 'native', False),
@@ -622,6 +803,38 @@ TARGET_SETS = {
         ('fe_sqr_inner', 'secp256k1_fe_sqr_inner', 'native', False),
         ('gej_cmov', 'secp256k1_gej_cmov', 'native', False),
         ('ge_storage_cmov', 'secp256k1_ge_storage_cmov', 'native', False),
+        ('gej_add_ge', 'secp256k1_gej_add_ge', 'native', False),
+        ('gej_double', 'secp256k1_gej_double', 'native', False),
+        ('gej_neg', 'secp256k1_gej_neg', 'native', False),
+        ('ge_to_storage', 'secp256k1_ge_to_storage', 'native', False),
+        ('fe_get_b32', 'secp256k1_fe_impl_get_b32', 'native', False),
+        ('scalar_mul', 'secp256k1_scalar_mul', 'native', False),
+    ],
+    'ct32': [
+        ('fe_cmov', 'secp256k1_fe_impl_cmov', 'int64', False),
+        ('fe_storage_cmov', 'secp256k1_fe_storage_cmov', 'int64', False),
+        ('scalar_cmov', 'secp256k1_scalar_cmov', 'int64', False),
+        ('scalar_cond_negate', 'secp256k1_scalar_cond_negate', 'int64', False),
+        ('scalar_negate', 'secp256k1_scalar_negate', 'int64', False),
+        ('scalar_add', 'secp256k1_scalar_add', 'int64', False),
+        ('scalar_is_high', 'secp256k1_scalar_is_high', 'int64', False),
+        ('scalar_check_overflow', 'secp256k1_scalar_check_overflow', 'int64', False),
+        ('scalar_is_zero', 'secp256k1_scalar_is_zero', 'int64', False),
+        ('int_cmov', 'secp256k1_int_cmov', 'int64', False),
+        ('fe_normalize', 'secp256k1_fe_impl_normalize', 'int64', False),
+        ('fe_normalizes_to_zero', 'secp256k1_fe_impl_normalizes_to_zero', 'int64', False),
+        ('fe_negate', 'secp256k1_fe_impl_negate_unchecked', 'int64', False),
+        ('fe_half', 'secp256k1_fe_impl_half', 'int64', False),
+        ('fe_mul_inner', 'secp256k1_fe_mul_inner', 'int64', False),
+        ('fe_sqr_inner', 'secp256k1_fe_sqr_inner', 'int64', False),
+        ('gej_cmov', 'secp256k1_gej_cmov', 'int64', False),
+        ('ge_storage_cmov', 'secp256k1_ge_storage_cmov', 'int64', False),
+        ('gej_add_ge', 'secp256k1_gej_add_ge', 'int64', False),
+        ('gej_double', 'secp256k1_gej_double', 'int64', False),
+        ('gej_neg', 'secp256k1_gej_neg', 'int64', False),
+        ('ge_to_storage', 'secp256k1_ge_to_storage', 'int64', False),
+        ('fe_get_b32', 'secp256k1_fe_impl_get_b32', 'int64', False),
+        ('scalar_mul', 'secp256k1_scalar_mul', 'int64', False),
     ],
 }
 
@@ -665,6 +878,6 @@ if __name__ == '__main__':
     import sys
     root = os.path.dirname(os.path.dirname(os.path.abspath(__file__)))
     sys.path.insert(0, os.path.join(root, 'tools'))
-    for s in sys.argv[1:] or ['field5x52', 'ct']:
+    for s in sys.argv[1:] or list(TARGET_SETS):
         r = regenerate(s, os.environ.get('VERIF_REPO', '/repo'), os.path.join(root, 'lean'))
         print(json.dumps({'errors': r['errors'], 'ok': [t['name'] + ':' + str(t['statements']) for t in r['targets']]}, indent=1))
